@@ -235,7 +235,8 @@ def run(tier, seed, replay=None):
     # correspondence of the same lenses and rays with the model
     c02.run_cases(ctx, model_cases[:(120 if quick else 3000)], drv, with_predicate=False)
     return finish(ctx, aud,
-                  partial=['closed-form theorems are proved for the paraboloid and for the sphere at its centre of '
-                           'curvature; ellipsoid, hyperboloid, plano-hyperbolic and aplanatic configurations are '
-                           'checked numerically against the closed form and through the model correspondence'],
+                  partial=['all seven closed-form configurations are theorems about the meridional restriction of the model '
+                           '(Model/Merid.lean: same expressions and branch order as Model/Real.lean, incl. root selection) '
+                           'under explicit direction / aperture guards; skew rays, the wavefront and Strehl clauses and '
+                           'the guards\' complements (far-sheet hits, see the docstrings) are numerical only'],
                   assumptions=['wavefront/Strehl clauses use Wavefront and FFTPSF of the implementation (C09, C11)'])
